@@ -320,6 +320,37 @@ func nonceReaderRule(c *Ctx, rule string) {
 		c.Anchor(rule, "the nonce-parametrised sender-side reader")
 		return
 	}
+	// a wrapper that hands on what another reader returned (after checks of its own) is judged where the entry is read:
+	// reporting it again would count one reader twice
+	isReader := map[*ssa.Function]bool{}
+	for _, fn := range readers {
+		isReader[fn] = true
+	}
+	var own []*ssa.Function
+	for _, fn := range readers {
+		passThrough, n := true, 0
+		for _, r := range returnsOf(fn) {
+			if !isSuccessReturn(r) {
+				continue
+			}
+			n++
+			ex, ok := retval(r, 0).(*ssa.Extract)
+			if !ok {
+				passThrough = false
+				continue
+			}
+			call, ok := ex.Tuple.(*ssa.Call)
+			if !ok || ex.Index != 0 || call.Call.StaticCallee() == nil || !isReader[call.Call.StaticCallee()] || call.Call.StaticCallee() == fn {
+				passThrough = false
+			}
+		}
+		if passThrough && n > 0 {
+			c.Triv(rule, FuncName(fn), "post:Result0.TokenMetaData.Nonce==nonce", c.P.Pos(fn.Pos()), "hands on the entry another reader returned: judged there")
+			continue
+		}
+		own = append(own, fn)
+	}
+	readers = own
 	for _, fn := range readers {
 		e := c.P.Env(fn)
 		var nonce string
